@@ -53,6 +53,102 @@ def parseBoxes (c : Case) (i : Nat) : Option (List Box) :=
     let x ← num? a[1]!; let X ← num? a[2]!; let y ← num? a[3]!; let Y ← num? a[4]!
     pure { id := nat! a[0]!, x := x, X := X, y := y, Y := Y })
 
+/-! ### exact tie of `Tree::symmetricLayout` with `Model/TreeLayout.lean` -/
+
+def dirOf : String → TreeLayout.Dir
+  | "E" => .east
+  | "S" => .south
+  | "W" => .west
+  | _ => .north
+
+/-- the rooted ordered tree as the library sees it (`kids` lines = `Node::getChildren()` order);
+    `fuel` = number of nodes + 1 (every `cons` consumes one unit on every path) -/
+def buildForest (kidsOf : Nat → List Nat) (szOf : Nat → Rat × Rat) : Nat → List Nat → TreeLayout.Forest
+  | 0, _ => .nil
+  | _, [] => .nil
+  | fuel + 1, i :: is =>
+    .cons i (szOf i).1 (szOf i).2 (buildForest kidsOf szOf fuel (kidsOf i)) (buildForest kidsOf szOf fuel is)
+
+structure LayoutIn where
+  cfg : TreeLayout.Cfg
+  convex : Bool
+  root : Nat
+  w : Rat
+  h : Rat
+  kids : TreeLayout.Forest
+  sizes : List (Nat × (Rat × Rat))
+
+/-- `layout` = tokens `dir nodeSep rankSep convex`; `szL` = `id w h`; `kidsL` = `id child…` -/
+def mkLayoutIn (layout : Array String) (root n : Nat) (szL kidsL : List (Array String)) : Option LayoutIn := do
+  let nodeSep ← num? layout[1]!
+  let rankSep ← num? layout[2]!
+  let sizes ← szL.mapM (fun a => do
+    let w ← num? a[1]!; let h ← num? a[2]!; pure (nat! a[0]!, (w, h)))
+  let kidsA := kidsL.map (fun a => (nat! a[0]!, natsOf a 1))
+  let szOf := fun i => (sizes.lookup i).getD (0, 0)
+  let kidsOf := fun i => (kidsA.lookup i).getD []
+  let (w, h) ← sizes.lookup root
+  pure { cfg := ⟨dirOf layout[0]!, nodeSep, rankSep⟩, convex := layout[3]! == "1", root := root, w := w, h := h,
+         kids := buildForest kidsOf szOf (n + 1) (kidsOf root), sizes := sizes }
+
+def readLayoutIn (c : Case) (n : Nat) : Option LayoutIn := do
+  let l ← c.get1 "layout"
+  let root := nat! ((← c.get1 "root")[0]!)
+  mkLayoutIn (l.extract 1 l.size) root n (c.get "sz").toList (c.get "kids").toList
+
+/-- hypothesis of `symmetricLayout_no_overlap`: sizes ≥ 0, extent along the growth direction ≤ rankSep,
+    nodeSep ≥ 0 -/
+def layoutHyp (i : LayoutIn) : Bool :=
+  decide (0 ≤ i.cfg.nodeSep) && i.sizes.all (fun (_, (w, h)) =>
+    decide (0 ≤ w) && decide (0 ≤ h) && decide ((if i.cfg.dir.isVertical then h else w) ≤ i.cfg.rankSep))
+
+/-- compare every centre (`ctr`: `id x y`), the per-rank bounds (`rb`: `r lo hi`), m_lb/m_ub and the symmetry
+    flag with the model: `none` = equal -/
+def tieWith (i : LayoutIn) (n : Nat) (ctrL rbL : List (Array String)) (lbub : Option (Array String))
+    (symImpl : Bool) : Option String := Id.run do
+  let lay := TreeLayout.symmetricLayout i.cfg i.convex i.root i.w i.h i.kids
+  let mnodes := lay.nodes
+  if mnodes.length != n then return some s!"model laid out {mnodes.length} nodes, tree has {n}"
+  let ctr := ctrL.map (fun a => (nat! a[0]!, (num? a[1]!, num? a[2]!)))
+  if ctr.length != n then return some s!"{ctr.length} ctr lines for {n} nodes"
+  for m in mnodes do
+    match ctr.lookup m.id with
+    | some (some x, some y) =>
+      if x != m.c.x || y != m.c.y then
+        return some s!"centre of node {m.id}: impl ({x}, {y}) model ({m.c.x}, {m.c.y})"
+    | _ => return some s!"node {m.id}: no finite centre printed"
+  let rb := rbL.map (fun a => (num? a[1]!, num? a[2]!))
+  if rb.length != lay.levels.length then
+    return some s!"m_depth: impl {rb.length} model {lay.levels.length}"
+  let mut r := 0
+  for (b, lv) in rb.zip lay.levels do
+    if b.1 != some lv.lo || b.2 != some lv.hi then
+      return some s!"m_boundsByRank[{r}]: impl ({b.1}, {b.2}) model ({lv.lo}, {lv.hi})"
+    r := r + 1
+  match lbub with
+  | some a =>
+    if num? a[0]! != some lay.lb || num? a[1]! != some lay.ub then
+      return some s!"m_lb/m_ub: impl ({num? a[0]!}, {num? a[1]!}) model ({lay.lb}, {lay.ub})"
+  | none => return some "no lbub line"
+  let symModel := TreeLayout.isSymmetrical i.kids
+  if symImpl != symModel then return some s!"isSymmetrical: impl {symImpl} model {symModel}"
+  return none
+
+def tieLayout (c : Case) (i : LayoutIn) (n : Nat) : Option String :=
+  tieWith i n (c.get "ctr").toList (c.get "rb").toList (c.get1 "lbub")
+    (((c.get1 "laid").map (fun a => a[1]! == "1")).getD false)
+
+/-- the same tie for tree number `k` of a peel case (lines `psz/pkids/pctr/prb/plbub k …`) -/
+def tiePeelTree (c : Case) (k root n : Nat) : Option String :=
+  match linesFor c "layout" k with
+  | [l] =>
+    match mkLayoutIn l root n (linesFor c "psz" k) (linesFor c "pkids" k) with
+    | none => some "layout input lines (layout/psz/pkids) malformed"
+    | some i =>
+      tieWith i n (linesFor c "pctr" k) (linesFor c "prb" k) ((linesFor c "plbub" k).head?)
+        (((linesFor c "laid" k).head?.map (fun a => a[0]! == "1")).getD false)
+  | _ => some "no layout line"
+
 def checkPeel (c : Case) : CaseResult := Id.run do
   let (ns, es) := inputGraph c
   if !simpleB ns es then return { verdict := .diverge "harness produced a non-simple input graph" }
@@ -121,85 +217,14 @@ def checkPeel (c : Case) : CaseResult := Id.run do
         match firstOverlap bs with
         | some (a, b) => return { verdict := .specfail s!"symmetricLayout: boxes of nodes {a} and {b} overlap (tree {i})", stats := stats }
         | none => pure ()
+        if (linesFor c "exactp" i).length == 1 then
+          let mt := trees.getD i default
+          match tiePeelTree c i mt.root mt.nodes.length with
+          | some msg => return { verdict := .diverge s!"symmetricLayout exact tie (peeled tree {i}): {msg}", stats := stats }
+          | none => stats := ("layoutExact.peeledTrees", 1) :: stats
     stats := ("layout.boxes", nboxes) :: stats
     return { verdict := .ok, nontrivial := !m.stems.isEmpty, stats := stats }
   | _, _ => return { verdict := .diverge "model ran out of fuel", stats := stats }
-
-/-! ### exact tie of `Tree::symmetricLayout` with `Model/TreeLayout.lean` -/
-
-def dirOf : String → TreeLayout.Dir
-  | "E" => .east
-  | "S" => .south
-  | "W" => .west
-  | _ => .north
-
-/-- the rooted ordered tree as the library sees it (`kids` lines = `Node::getChildren()` order);
-    `fuel` = number of nodes + 1 (every `cons` consumes one unit on every path) -/
-def buildForest (kidsOf : Nat → List Nat) (szOf : Nat → Rat × Rat) : Nat → List Nat → TreeLayout.Forest
-  | 0, _ => .nil
-  | _, [] => .nil
-  | fuel + 1, i :: is =>
-    .cons i (szOf i).1 (szOf i).2 (buildForest kidsOf szOf fuel (kidsOf i)) (buildForest kidsOf szOf fuel is)
-
-structure LayoutIn where
-  cfg : TreeLayout.Cfg
-  convex : Bool
-  root : Nat
-  w : Rat
-  h : Rat
-  kids : TreeLayout.Forest
-  sizes : List (Nat × (Rat × Rat))
-
-def readLayoutIn (c : Case) (n : Nat) : Option LayoutIn := do
-  let l ← c.get1 "layout"
-  let nodeSep ← num? l[2]!
-  let rankSep ← num? l[3]!
-  let root := nat! ((← c.get1 "root")[0]!)
-  let sizes ← (c.get "sz").toList.mapM (fun a => do
-    let w ← num? a[1]!; let h ← num? a[2]!; pure (nat! a[0]!, (w, h)))
-  let kidsL := (c.get "kids").toList.map (fun a => (nat! a[0]!, natsOf a 1))
-  let szOf := fun i => (sizes.lookup i).getD (0, 0)
-  let kidsOf := fun i => (kidsL.lookup i).getD []
-  let (w, h) ← sizes.lookup root
-  pure { cfg := ⟨dirOf l[1]!, nodeSep, rankSep⟩, convex := l[4]! == "1", root := root, w := w, h := h,
-         kids := buildForest kidsOf szOf (n + 1) (kidsOf root), sizes := sizes }
-
-/-- hypothesis of `symmetricLayout_no_overlap`: sizes ≥ 0, extent along the growth direction ≤ rankSep,
-    nodeSep ≥ 0 -/
-def layoutHyp (i : LayoutIn) : Bool :=
-  decide (0 ≤ i.cfg.nodeSep) && i.sizes.all (fun (_, (w, h)) =>
-    decide (0 ≤ w) && decide (0 ≤ h) && decide ((if i.cfg.dir.isVertical then h else w) ≤ i.cfg.rankSep))
-
-/-- compare every centre, the per-rank bounds, m_lb/m_ub and the symmetry flag with the model: `none` = equal -/
-def tieLayout (c : Case) (i : LayoutIn) (n : Nat) : Option String := Id.run do
-  let lay := TreeLayout.symmetricLayout i.cfg i.convex i.root i.w i.h i.kids
-  let mnodes := lay.nodes
-  if mnodes.length != n then return some s!"model laid out {mnodes.length} nodes, tree has {n}"
-  let ctr := (c.get "ctr").toList.map (fun a => (nat! a[0]!, (num? a[1]!, num? a[2]!)))
-  if ctr.length != n then return some s!"{ctr.length} ctr lines for {n} nodes"
-  for m in mnodes do
-    match ctr.lookup m.id with
-    | some (some x, some y) =>
-      if x != m.c.x || y != m.c.y then
-        return some s!"centre of node {m.id}: impl ({x}, {y}) model ({m.c.x}, {m.c.y})"
-    | _ => return some s!"node {m.id}: no finite centre printed"
-  let rb := (c.get "rb").toList.map (fun a => (num? a[1]!, num? a[2]!))
-  if rb.length != lay.levels.length then
-    return some s!"m_depth: impl {rb.length} model {lay.levels.length}"
-  let mut r := 0
-  for (b, lv) in rb.zip lay.levels do
-    if b.1 != some lv.lo || b.2 != some lv.hi then
-      return some s!"m_boundsByRank[{r}]: impl ({b.1}, {b.2}) model ({lv.lo}, {lv.hi})"
-    r := r + 1
-  match c.get1 "lbub" with
-  | some a =>
-    if num? a[0]! != some lay.lb || num? a[1]! != some lay.ub then
-      return some s!"m_lb/m_ub: impl ({num? a[0]!}, {num? a[1]!}) model ({lay.lb}, {lay.ub})"
-  | none => return some "no lbub line"
-  let symImpl := ((c.get1 "laid").map (fun a => a[1]! == "1")).getD false
-  let symModel := TreeLayout.isSymmetrical i.kids
-  if symImpl != symModel then return some s!"isSymmetrical: impl {symImpl} model {symModel}"
-  return none
 
 /-- directly built tree + Tree::symmetricLayout: input must be a tree, one box per node; no two boxes
     overlap whenever the hypothesis of `symmetricLayout_no_overlap` holds (SPECFAIL); with an `exact` line
